@@ -264,7 +264,7 @@ def run(tier, replay=None):
     for src, out, sx, got in e2e_bad[:20]:
         p = ck.write_replay("e2e", {"mamba_source": src, "emitted": out, "expected_tree": sx,
                                     "python_parse": got})
-        ck.violation("grouping of the Mamba source lost in the emitted Python", p, src)
+        ck.violation("grouping of the Mamba source lost in the emitted Python", p, f"SRC:{src}\nOUT:{out}")
     if corr_bad:
         ck.broken.append({"kind": "correspondence", "where": "print endpoint: Printer model vs to_py",
                           "examples": [list(x) for x in corr_bad[:3]], "count": len(corr_bad)})
